@@ -2,7 +2,7 @@
 import invgen as G
 from common import *  # noqa
 
-SEGS = ['x', 'a.b', '_u', 'y_', 'n1', 'web.prod']
+SEGS = ['x', 'a.b', '_u', 'y_', 'n1', 'web.prod', 'co$t', 'dom\\host', 'a b']
 
 
 def spec_meta(path, compose, dots):
